@@ -15,13 +15,14 @@ HORIZON_S = 120.0
 class Proc:
     """One `plan` process. Events are read with next_event(); every event must be answered."""
 
-    def __init__(self, args, stdin_bytes, cwd, tmpdir, repo=None, mode="rebuilt", label="p"):
+    def __init__(self, args, stdin_bytes, cwd, tmpdir, repo=None, mode="rebuilt", label="p", env_extra=None):
         self.label = label
         self.cwd, self.tmpdir = cwd, tmpdir
         self.ev_r, ev_w = os.pipe()      # child -> controller
         an_r, self.an_w = os.pipe()      # controller -> child
         repo = repo or os.environ.get("VERIF_REPO", "/repo")
         env = dict(os.environ, TMPDIR=tmpdir, PYTHONHASHSEED="0", TZ="UTC", LC_ALL="C.UTF-8", PYTHONDONTWRITEBYTECODE="1", NO_COLOR="1")
+        env.update(env_extra or {})   # a case may put the process into another locale / time zone
         self.p = subprocess.Popen([sys.executable, LAUNCHER, str(ev_w), str(an_r), repo, mode, "--"] + list(args), cwd=cwd, env=env,
                                   stdin=subprocess.PIPE, stdout=subprocess.PIPE, stderr=subprocess.PIPE, pass_fds=(ev_w, an_r))
         os.close(ev_w)
@@ -95,12 +96,16 @@ class Proc:
 class Sandbox:
     """cwd + private TMPDIR under one scratch directory (removed on close)."""
 
-    def __init__(self, files=None):
+    def __init__(self, files=None, tmp_symlink=False):
         self.root = tempfile.mkdtemp(prefix="verif-cli-")
         self.cwd = os.path.join(self.root, "cwd")
         self.tmp = os.path.join(self.root, "tmp")
         os.mkdir(self.cwd)
-        os.mkdir(self.tmp)
+        if tmp_symlink:   # TMPDIR is reached through a symbolic link (as /tmp on macOS, or /tmp -> /var/tmp)
+            os.mkdir(os.path.join(self.root, "tmp_real"))
+            os.symlink("tmp_real", self.tmp)
+        else:
+            os.mkdir(self.tmp)
         for name, data in (files or {}).items():
             with open(os.path.join(self.cwd, name), "wb") as f:  # name may carry surrogate escapes (non-UTF-8 bytes)
                 f.write(data)
@@ -139,15 +144,15 @@ class Sandbox:
         shutil.rmtree(self.root, ignore_errors=True)
 
 
-def run_single(args, stdin_bytes=None, files=None, decide=None, repo=None, mode="rebuilt", dirs=None):
+def run_single(args, stdin_bytes=None, files=None, decide=None, repo=None, mode="rebuilt", dirs=None, env=None, tmp_symlink=False):
     """Run one `plan` process to completion. decide(k, event) -> answer dict (default: {'act': 'go'}).
     Returns dict(code, stdout, stderr, trace, tmp_left, cwd_changed)."""
-    sb = Sandbox(files)
+    sb = Sandbox(files, tmp_symlink=tmp_symlink)
     for d in dirs or []:
         os.mkdir(os.path.join(sb.cwd, d))
     sb.before = sb.listing(sb.cwd)
     try:
-        pr = Proc(args, stdin_bytes, sb.cwd, sb.tmp, repo=repo, mode=mode)
+        pr = Proc(args, stdin_bytes, sb.cwd, sb.tmp, repo=repo, mode=mode, env_extra=env)
         t0 = time.time()
         k = 0
         while True:
